@@ -143,6 +143,23 @@ class Record:
         return "<record {}>".format(sorted(self.fields))
 
 
+class NTValue(tuple):
+    """A typing.NamedTuple instance built at fold time: a tuple with named fields and the class
+    whose methods / properties apply to it."""
+
+    def __new__(cls, values, names, cref):
+        o = tuple.__new__(cls, values)
+        o.names = list(names)
+        o.cls = cref
+        return o
+
+    def method(self, name):
+        for st in self.cls.node.body:
+            if isinstance(st, ast.FunctionDef) and st.name == name:
+                return st
+        return None
+
+
 class Probe:
     """Stand-in for the result of an external call in a simulated run (PureEval.ext_hook):
     records how it was made; every method call on it answers *answer*."""
@@ -392,6 +409,15 @@ class PureEval:
                 obj[key] = v
             else:
                 raise Undecided("subscript store on non-container")
+        elif isinstance(target, ast.Attribute):
+            obj = self.ev(target.value, env)
+            if isinstance(obj, FuncRef):
+                # an attribute set on a function object (e.g. predicate.regex_id = ...): kept on the reference
+                if not hasattr(obj, "fattrs"):
+                    obj.fattrs = {}
+                obj.fattrs[target.attr] = v
+                return
+            raise Undecided("attribute store on " + type(obj).__name__)
         else:
             raise Undecided("assign target " + type(target).__name__)
 
@@ -521,7 +547,45 @@ class PureEval:
                     return obj.members[n.attr]
                 if n.attr == "__name__":
                     return obj.name
+                # a class-level constant (possibly inherited from a base of the same package)
+                seen_c = set()
+                cur_c = obj
+                while cur_c is not None and id(cur_c) not in seen_c:
+                    seen_c.add(id(cur_c))
+                    for st_ in cur_c.node.body:
+                        if isinstance(st_, ast.Assign) and any(isinstance(t_, ast.Name) and t_.id == n.attr for t_ in st_.targets):
+                            sub = PureEval(self.model, cur_c.mod, self.model.env(cur_c.mod.name) if self.model else {},
+                                           budget=20000)
+                            return sub.ev(st_.value, {})
+                        if isinstance(st_, ast.AnnAssign) and isinstance(st_.target, ast.Name) and st_.target.id == n.attr \
+                                and st_.value is not None:
+                            sub = PureEval(self.model, cur_c.mod, self.model.env(cur_c.mod.name) if self.model else {},
+                                           budget=20000)
+                            return sub.ev(st_.value, {})
+                    nxt_c = None
+                    for b_ in cur_c.node.bases:
+                        if isinstance(b_, ast.Name) and self.model is not None:
+                            bv = self.model.env(cur_c.mod.name).get(b_.id)
+                            if isinstance(bv, ClassRef):
+                                nxt_c = bv
+                                break
+                    cur_c = nxt_c
                 raise Undecided("class attribute " + n.attr)
+            if isinstance(obj, NTValue):
+                if n.attr in obj.names:
+                    return obj[obj.names.index(n.attr)]
+                m = obj.method(n.attr)
+                if m is not None and any(ast.unparse(d) == "property" for d in m.decorator_list):
+                    saved = self.allow_methods
+                    node_copy = m
+                    # a property: evaluate its body on the instance
+                    local = {m.args.args[0].arg: obj}
+                    try:
+                        self.block(m.body, local)
+                    except _Return as r:
+                        return r.v
+                    return None
+                raise Undecided("NamedTuple attribute " + n.attr)
             if isinstance(obj, Record):
                 if n.attr in obj.fields:
                     return obj.fields[n.attr]
@@ -621,8 +685,25 @@ class PureEval:
                 self._need_concrete(args[0])
                 obj.update(args[0])
                 return None
-            if isinstance(obj, list) and f.attr in ("append", "extend", "index", "count", "copy"):
-                return getattr(obj, f.attr)(*args)
+            if isinstance(obj, list) and f.attr in ("append", "extend", "index", "count", "copy", "pop", "insert",
+                                                    "reverse", "clear", "remove"):
+                for a in args:
+                    if f.attr in ("extend",):
+                        self._need_concrete(a)
+                try:
+                    return getattr(obj, f.attr)(*args)
+                except Exception as e:
+                    raise Undecided("list.{} failed: {}".format(f.attr, e))
+            if isinstance(obj, dict) and f.attr in ("pop",):
+                try:
+                    return obj.pop(*args)
+                except Exception as e:
+                    raise Undecided("dict.pop failed: {}".format(e))
+            if isinstance(obj, NTValue):
+                # a method / property of a NamedTuple class
+                m = obj.method(f.attr)
+                if m is not None:
+                    return self.call_func(FuncRef(obj.cls.mod, m, closure={}), [obj] + list(args), kwargs)
             if isinstance(obj, Probe):
                 return obj.answer
             if isinstance(obj, ClassRef) and self.ext_hook is not None:
@@ -684,6 +765,24 @@ class PureEval:
                 for m in fv.members.values():
                     if args and m.value == args[0]:
                         return m
+            if any(ast.unparse(b).split(".")[-1] == "NamedTuple" for b in fv.node.bases):
+                names = [st_.target.id for st_ in fv.node.body
+                         if isinstance(st_, ast.AnnAssign) and isinstance(st_.target, ast.Name)]
+                defaults = {st_.target.id: st_.value for st_ in fv.node.body
+                            if isinstance(st_, ast.AnnAssign) and isinstance(st_.target, ast.Name) and st_.value is not None}
+                vals = {}
+                if len(args) > len(names) or any(k not in names for k in kwargs):
+                    raise Undecided("NamedTuple arguments")
+                for nm, a in zip(names, args):
+                    vals[nm] = a
+                vals.update(kwargs)
+                for nm in names:
+                    if nm not in vals:
+                        if nm in defaults:
+                            vals[nm] = self.ev(defaults[nm], {})
+                        else:
+                            raise Undecided("missing NamedTuple field " + nm)
+                return NTValue([vals[nm] for nm in names], names, fv)
             return Opaque("instance", (fv, args, kwargs, n))
         if isinstance(fv, Opaque):
             return Opaque("call", (fv, None, args, kwargs, n))
@@ -774,6 +873,24 @@ class PureEval:
             for x in list(it):
                 self.tick()
                 self.assign(st.target, x, env)
+                try:
+                    self.block(st.body, env)
+                except _Continue:
+                    continue
+                except _Break:
+                    broke = True
+                    break
+            if not broke:
+                self.block(st.orelse, env)
+            return
+        if isinstance(st, ast.While):
+            broke = False
+            while True:
+                self.tick()
+                c = self.ev(st.test, env)
+                self._need_concrete(c)
+                if not c:
+                    break
                 try:
                     self.block(st.body, env)
                 except _Continue:
